@@ -235,7 +235,7 @@ PROPS = {
             "a vtable is identified with the concrete type it was built for; attach_vtable's pointer cast is modelled as `type tag of the stored function = type tag of the value => the cast is right` (unsafe pointer work itself is not verified; no Miri in this environment)",
             "`present` = present under dynamic id 0, the only key the iterators look up; only the stable (non-`nightly`) variant of meta.rs is modelled and exercised",
             "user code: <T as CastFrom<R>>::cast returns an arbitrary trait-object pointer: address and vtable are both universally quantified in the theorems (a lawful implementation returns the address it was given with R's vtable). The address check of attach_vtable compares addresses only, so 'methods of the concrete type' is proved for lawful casts (the # Safety contract of CastFrom) and 'same address' for every cast; an address-preserving cast that attaches another type's vtable (first field, another zero-sized type at the same dangling address) is accepted by the code and by the model alike",
-            "the engine's implementors: zero-sized (align 1 / 64, with Drop, generic), sized 1 B - 4 KiB (align 1 packed .. 64, with Drop, generic), each kind with the lawful cast and with wrong casts (offset, other object of the same type, static, field at offset 0 / 8, object of another type, lawful-until-armed); what each cast does is declared in harness/src/engines/meta/types.rs and verified on the casts themselves at start-up; the harness is built with debug assertions on, so a check demoted to debug_assert! would not be noticed",
+            "the engine's implementors: zero-sized (align 1 / 64, with Drop, generic), sized 1 B - 4 KiB (align 1 packed .. 64, with Drop, generic), each kind with the lawful cast and with wrong casts (offset, other object of the same type, static, field at offset 0 / 8, object of another type, lawful-until-armed); what each cast does is declared in harness/src/engines/meta/types.rs and verified on the casts themselves at start-up; the harness is also built without debug assertions (profile nodebug), so a check demoted to debug_assert! is noticed; besides the forty types, histories over 257-320 const-generic implementors in one table (meta/many.rs)",
         ],
     },
 }
